@@ -260,7 +260,7 @@ def c07():
         "theorems": ["C07_insert_refines", "C07_fit_refines", "C07_stored_is_recomputed", "C07_nonvacuous_instance"],
         "model_files": ["Model/Obs.v", "Model/ObsBits.v", "Model/Spec.v"],
         "suites": [suite_hist.suite_tree_walk, suite_hist.suite_exhaustive,
-                   suite_c07.suite_dissim_choice, suite_c07.suite_legacy],
+                   suite_c07.suite_dissim_choice, suite_c07.suite_legacy, suite_c07.suite_reference_tall],
         "search": suite_c07.search_c07,
         "replay": suite_c07.replay_c07,
         "level": "proof",
@@ -442,7 +442,7 @@ def c14():
                      "C14_nonvacuous", "C14_instance_not_trivial", "C14_source_tie_purge",
                      "C14_source_tie_cleanup", "C14_source_tie_publish", "C14_source_tie_publish_names"],
         "model_files": ["Model/Multiround.v", "Gen/GMr.v", "Proofs/GenTieMr.v", "Gen/GMrDel.v", "Proofs/GenTieMrDel.v"],
-        "suites": [suite_mr.suite_crash, suite_mr.suite_mr_files, __import__('suite_numpysem').suite_numpysem],
+        "suites": [suite_mr.suite_crash, suite_mr.suite_worker_crash, suite_mr.suite_mr_files, __import__('suite_numpysem').suite_numpysem],
         "search": suite_mr.search_mr("C14"),
         "replay": suite_mr.replay_c14,
         "level": "proof",
@@ -526,7 +526,7 @@ def c13():
                      "C13_most_dissimilar", "C13_most_dissimilar_shape", "C13_nonvacuous",
                      "C13_nf_ok_nonmultiple"],
         "model_files": ["Model/Cpp.v", "Model/ObsCpp.v", "Model/Sim.v"],
-        "suites": [suite_cpp.suite_cpp_corpus, suite_cpp.suite_cpp, suite_cpp.suite_cpp_e2e, suite_bits.suite_bits],
+        "suites": [suite_cpp.suite_cpp_corpus, suite_cpp.suite_cpp, suite_cpp.suite_cpp_large, suite_cpp.suite_cpp_e2e, suite_bits.suite_bits],
         "search": suite_cpp.search_c13,
         "replay": suite_cpp.replay_c13,
         "level": "proof",
